@@ -564,6 +564,8 @@ def oracle_container(case, obs):
             if order is None or not rest.startswith("dot"):
                 return "step %d `%s`: unexpected %s" % (si, st, text[:60])
             toks = rest.split()[1:]
+            if not toks or toks[0] != "OPEN" or toks[-1] != "CLOSE" or toks.count("OPEN") != 1 or toks.count("CLOSE") != 1:
+                return "step %d `%s`: the export is not framed by one `digraph {` line and one closing brace: %s ... %s" % (si, st, toks[:2], toks[-2:])
             nodes_t = [x for x in toks if x.startswith("N:")]
             edges_t = [x for x in toks if x.startswith("E:")]
             # graph attributes: exactly those the graph callback supplies (variant 1: rankdir and label; 0 and 2: none)
